@@ -5,7 +5,7 @@
    Stations are indices into station_ids; `nth i out 0` is the pilot sent to station i. *)
 From Coq Require Import ZArith QArith Qminmax List Bool String Permutation.
 From ACN Require Import Base.Num Base.ListX Gen.Sorted_Q Gen.Evse_Q Gen.Battery_Q Model.EVSE Model.Preproc Model.Sorted
-     Model.FeasBig Proofs.Sorted Proofs.FeasBig Proofs.Preproc.
+     Model.FeasBig Proofs.Sorted Proofs.FeasBig Proofs.Preproc Proofs.Total.
 Import ListNotations.
 Open Scope Q_scope.
 
@@ -191,6 +191,35 @@ Theorem C07_bisect_terminates :
     0 < eps -> bisect feasible (bisect_fuel eps lo hi) idx sched eps lo hi <> None.
 Proof. exact bisect_fuel_enough. Qed.
 Print Assumptions C07_bisect_terminates.
+
+(* the round-robin loop of the model never runs out of fuel either: every iteration removes a session from the
+   deque or raises one level *)
+Theorem C07_rr_terminates :
+  forall (feasible : list Q -> bool) inf period now inc k (ss : list session),
+    NoDup (map s_station ss) -> stations_ok inf ss -> infra_lengths inf ->
+    feasible (snd (rr_init inf period inc (sort_sessions inf period now k ss))) = true ->
+    exists out, round_robin feasible inf period now inc k ss = Ok out /\ List.length out = n_stations inf.
+Proof. exact round_robin_ok. Qed.
+Print Assumptions C07_rr_terminates.
+
+(* a schedule IS produced: for sessions as the simulator hands them out (min_rates[0] = 0) on a well-formed
+   infrastructure whose zero vector is feasible, neither algorithm raises ("lower bound is not feasible",
+   "initial schedule is not feasible") and format_array_schedule accepts the vector.  `veq` is pointwise == of rate
+   vectors; the phasor check respects it (C07_check_respects_eq). *)
+Theorem C07_schedule_defined :
+  forall (feasible : list Q -> bool) inf cfg (ss : list session),
+    (forall x y, veq x y -> feasible x = feasible y) ->
+    infra_wf inf -> infra_wf_rr inf -> NoDup (map s_station ss) -> stations_ok inf ss ->
+    (forall s, In s ss -> session_wf s /\ hd0 (s_min s) == 0 /\ 0 <= hd0 (s_max s)) ->
+    period_ok inf (c_period cfg) -> est_ok (c_est cfg) -> 0 < c_inc cfg ->
+    feasible (repeat 0 (n_stations inf)) = true ->
+    exists out, so_result (schedule_with feasible inf cfg ss) = Ok out.
+Proof. exact (fun feasible inf cfg ss H => schedule_defined feasible H inf cfg ss). Qed.
+Print Assumptions C07_schedule_defined.
+
+Theorem C07_check_respects_eq : forall inf x y, veq x y -> feasQ inf x = feasQ inf y.
+Proof. exact feasQ_veq. Qed.
+Print Assumptions C07_check_respects_eq.
 
 (* the executed feasibility check (BigQ arithmetic) is the phasor check of Model/Preproc.v *)
 Theorem C07_exec_is_model :
